@@ -143,6 +143,8 @@ func (x *Exec) selectInstr(in *ssa.Select) {
 		} else {
 			v := x.materialize(x.val(s.Send))
 			sv := s
+			// `at trysend`: the attempt itself (whether or not the send is chosen)
+			x.atChan("trysend", sv.Chan, ch, v, nil)
 			x.withGuard(cond, func() { x.atChan("send", sv.Chan, ch, v, nil) })
 		}
 	}
